@@ -115,10 +115,12 @@ func (e *c10Env) c10Reverse(s c10Start, t c10Stop, st *c10State, caseSeed uint64
 		return
 	}
 	fail := func(kind, what string) {
-		fp := fmt.Sprintf("C10:rev:%s:start=%s:stop=%s:log=%s", kind, s.Class, t.Class, e.shape.label())
+		fp := fmt.Sprintf("C10:rev:%s:start=%s:stop=%s", kind, s.Class, t.Class)
 		if cause != "" {
 			c10Mark("rev|" + cause)
 			fp = fmt.Sprintf("C10:rev:%s:%s", cause, kind)
+		} else {
+			c10Unattributed.Add(1)
 		}
 		rep.Violation(fp, fmt.Sprintf("%s on %s log: %s", reqStr, e.shape.label(), what), witness(what))
 	}
@@ -200,7 +202,7 @@ func (e *c10Env) runReverseCases(rng *kit.RNG, nCases int) {
 		return
 	}
 	for _, pr := range plan {
-		if done >= nCases {
+		if done >= nCases || c10Unattributed.Load() >= c10UnattributedCap {
 			break
 		}
 		s, ok := st.resolveStart(pr.s, rng)
